@@ -309,7 +309,10 @@ structure PsmKey where
   deriving DecidableEq, Repr, Inhabited
 
 structure Annot where
+  /-- `json_name`: the declared j5s name -/
   jsonName : String
+  /-- the proto field name: `strcase.ToSnake` of the declared name -/
+  protoName : String
   number : Nat
   description : String
   kind : ProtoKind
